@@ -20,12 +20,19 @@ THEOREMS = [P + n for n in (
     'subset_time_exact_in_order', 'sort_stable_perm', 'merge_split_multiset', 'odd_even_partition',
     'bin_is_mean_of_bin', 'timeAsObs_entry', 'timeAsChan_entry', 'df_roundtrip',
     'average_by_is_group_mean', 'reachable_inv', 'split_channel_partitions', 'split_time_partitions',
-    'tensor_entry', 'constructor_check_sound', 'merge_split_columns')]
+    'tensor_entry', 'constructor_check_sound', 'merge_split_columns',
+    'df_classification', 'df_default_class', 'reachable_inv_bin')]
 RULE = ('one case = initial Dataset/TemporalDataset (1-6 observations, sometimes 17-24 for sort '
         'stability; 1-4 channels; 1-4 time points; str/int descriptor columns with duplicate values, '
-        'list- or array-typed) + a sequence of <= 8 (thorough <= 30) operations with symbolic '
+        'list- or array-typed; optionally a column with missing entries (None in a string column, NaN '
+        'in a float column; often constant except for the missing entries, sometimes all missing), a '
+        'float-typed column (incl. integral floats), a float dataset descriptor, a channel named like '
+        'a descriptor key) + a sequence of <= 8 (thorough <= 30) operations with symbolic '
         'arguments resolved against the current state; directed templates (sort+split+merge, '
-        'size-1 axes for the conversions, subset_time then bin_time, empty selections) are mixed '
+        'size-1 axes for the conversions, subset_time with bounds on / between / outside the time '
+        'points then bin_time with adjacent and interleaved bins, empty selections, DataFrame round '
+        'trips of datasets with missing values / float descriptors incl. twice in a row, odd/even '
+        'splits with a single group, merges of parts with different channel counts) are mixed '
         'with random sequences; a case is non-trivial when at least one operation was admissible '
         'and changed or queried the workspace; distinct = distinct (initial dataset, operation list)')
 BRANCHES = ['op:split_obs', 'op:split_channel', 'op:split_time', 'op:subset_obs', 'op:subset_channel',
@@ -36,15 +43,27 @@ BRANCHES = ['op:split_obs', 'op:split_channel', 'op:split_time', 'op:subset_obs'
             'size1:time', 'merge:promoted', 'subset:list', 'subset:scalar', 'subset:empty',
             'sort:temporal-large', 'desc:array', 'desc:list', 'out:inadmissible',
             'init:rejected-length', 'init:rejected-notime', 'init:default-time', 'init:none-descriptors',
-            'merge:rejected-mixed', 'alias:merge_subsets', 'alias:convert_to_dataset', 'df:default-name']
+            'merge:rejected-mixed', 'alias:merge_subsets', 'alias:convert_to_dataset', 'df:default-name',
+            # round 3: missing values / float descriptors in the DataFrame round trip, rejections
+            'df:missing-str', 'df:missing-float', 'df:const-except-missing', 'df:all-missing',
+            'df:float-unrepresentable', 'df:integral-float', 'df:float-explicit', 'df:name-clash',
+            'missing:gathered', 'oe:rejected-one-group', 'merge:rejected-shape',
+            'subset_time:open-bound', 'subset_time:single-point',
+            'df:missing-dataset-desc', 'bin:non-adjacent']
 ASSUMPTIONS = [
     'measurements are small integers, so numpy means agree with exact rational means to 1e-9',
-    'descriptor columns are homogeneous (all int or all str) and key names of the four descriptor '
-    'dictionaries are pairwise distinct in the initial dataset (the operations themselves may '
-    'duplicate a key consistently)',
+    'descriptor columns are homogeneous (all int, all float, or all str) apart from missing entries, '
+    'and key names of the four descriptor dictionaries are pairwise distinct in the initial dataset '
+    '(the operations themselves may duplicate a key consistently); a missing entry is None in a '
+    'string column and NaN in a float column (the model has one missing value: a column of nothing '
+    'but None is left out of the dtype-driven round trip)',
     'merge_datasets is only called on datasets of one class with identical channel and time '
-    'descriptors (its documented precondition); bin_time only on an integer-valued time descriptor; '
-    'odd/even splits only with >= 2 groups; operations on a dataset with an empty axis are skipped']
+    'descriptors (its documented precondition) whose columns numpy can concatenate without coercing '
+    'a value (one dtype per shared descriptor, no missing entry in a string column, no missing '
+    'dataset descriptor); bin_time only on an integer-valued time descriptor; operations whose `by` '
+    'column holds a missing entry and operations on a dataset with an empty axis are skipped',
+    'odd/even splits with a single (level-2) group and merges of parts with different channel / time '
+    'counts must be rejected by the implementation (any exception), as the model has no result']
 TRUSTED_EXTRA = ['numpy: np.unique(return_index, return_inverse), np.argsort(kind="stable") (the unique '
                  'stable sorting permutation), fancy indexing, np.isin, np.mean, reshape/repeat/tile; '
                  'pandas DataFrame column assignment and selection']
@@ -65,7 +84,67 @@ def _col(rng, n, kind, width):
     return [rng.choice(vals) for _ in range(n)]
 
 
-def gen_init(rng, temporal=None, no=None, nc=None, nt=None):
+def _F(k, den=2):
+    """float-typed label k/den (exact in binary)"""
+    return {'f': str(Fraction(k, den))}
+
+
+def _missing_col(rng, n, kind):
+    """descriptor column with missing entries (None in a string column, NaN in a float column);
+    often constant except for the missing entries, sometimes all missing or without any"""
+    r = rng.random()
+    n_vals = 1 if r < 0.55 else 2
+    if kind == 'str':
+        vals = rng.sample(['p', 'q', 'pp'], n_vals)
+    else:
+        den = rng.choice([1, 2, 4])        # den 1: integral floats (2.0)
+        vals = [_F(k, den) for k in rng.sample(range(-3, 9), n_vals)]
+    p_miss = rng.choice([0.0, 0.3, 0.3, 0.5, 1.0]) if n > 1 else rng.choice([0.0, 1.0, 1.0])
+    col = [None if rng.random() < p_miss else rng.choice(vals) for _ in range(n)]
+    if n > 1 and p_miss not in (0.0, 1.0) and all(x is None for x in col):
+        col[rng.randrange(n)] = vals[0]
+    if n > 1 and p_miss not in (0.0, 1.0) and all(x is not None for x in col):
+        col[rng.randrange(n)] = None
+    return col
+
+
+def _float_col(rng, n):
+    den = rng.choice([1, 2, 2, 4])
+    vals = [_F(k, den) for k in rng.sample(range(-3, 9), rng.randint(1, 3))]
+    return [rng.choice(vals) for _ in range(n)]
+
+
+def add_special_columns(rng, init, p_m=0.3, p_f=0.25, p_w=0.08, p_clash=0.03):
+    """missing-value column 'm', float column 'f', float dataset descriptor 'w', a channel named
+    like a descriptor key"""
+    no = len(init['meas'])
+    if init['obs'] is None or init['desc'] is None or init['chan'] is None:
+        return init
+    if rng.random() < p_m:
+        kind = rng.choice(['str', 'flt'])
+        init['obs'].append(['m', _missing_col(rng, no, kind)])
+        init['kinds']['obs:m'] = rng.choice(['list', 'array'])
+        # how a missing entry is written: None (string column) or NaN (float column); needed when
+        # the column holds nothing else
+        init['kinds']['miss:obs:m'] = 'none' if kind == 'str' else 'nan'
+    if rng.random() < p_f:
+        init['obs'].append(['f', _float_col(rng, no)])
+        init['kinds']['obs:f'] = rng.choice(['list', 'array'])
+    if rng.random() < p_w:
+        init['desc'].append(['w', _F(rng.randint(-2, 5), rng.choice([1, 2]))])
+    if rng.random() < p_clash:
+        for col in init['chan']:
+            if col[0] == 'n' and all(isinstance(x, str) for x in col[1]) and len(set(col[1])) == len(col[1]):
+                col[1][rng.randrange(len(col[1]))] = rng.choice([k for k, _ in init['obs']] + ['sub'])
+    return init
+
+
+def gen_init(rng, temporal=None, no=None, nc=None, nt=None, special=True):
+    init = _gen_init(rng, temporal, no, nc, nt)
+    return add_special_columns(rng, init) if special else init
+
+
+def _gen_init(rng, temporal=None, no=None, nc=None, nt=None):
     temporal = rng.random() < 0.5 if temporal is None else temporal
     no = no or rng.choice([1, 2, 3, 3, 4, 4, 5, 6])
     nc = nc or rng.choice([1, 2, 2, 3, 4])
@@ -123,6 +202,10 @@ def gen_op(rng, name=None, temporal=True):
             op.update(absent=True)
         else:
             op.update(lo=rng.randrange(6), hi=rng.randrange(6))
+            if rng.random() < 0.15:
+                op['hi'] = op['lo']                      # a single time point: t_from == t == t_to
+            if rng.random() < 0.35:                      # bounds strictly between / outside the values
+                op.update(lo_off=rng.choice([0, 1, 2]), hi_off=rng.choice([0, 1, 2]))
     elif name == 'nested_odd_even':
         op['k2'] = rng.randrange(4)
     elif name in ('merge', 'time_as_observations') and rng.random() < 0.25:
@@ -132,12 +215,63 @@ def gen_op(rng, name=None, temporal=True):
     elif name == 'bin_time':
         nb = rng.randint(1, 3)
         op['bins'] = [[rng.randrange(6) for _ in range(rng.randint(1, 3))] for _ in range(nb)]
+        if rng.random() < 0.4:      # bins (by position) whose members are not adjacent on the time axis
+            op['bins'] = rng.choice([[[0, 2], [1, 3]], [[0, 2], [1]], [[3, 0], [2, 1]], [[1], [2, 0]],
+                                     [[0, 3]], [[2, 0], [3], [1]]])
     return op
+
+
+def _df_init(rng, no=None):
+    """flat dataset for the DataFrame round trip: unique channel names, a column with missing
+    entries and / or a float column"""
+    init = gen_init(rng, False, no or rng.choice([1, 2, 3, 4, 5]), special=False)
+    init['chan'] = [['n', rng.sample(['x', 'y', 'z', 'w', 'v'], len(init['meas'][0]))]]
+    init['kinds']['chan:n'] = rng.choice(['list', 'array'])
+    r = rng.random()
+    return add_special_columns(rng, init, p_m=1.0 if r < 0.7 else 0.0, p_f=1.0 if r > 0.5 else 0.0,
+                               p_w=0.15, p_clash=0.06)
 
 
 def _directed(rng):
     """templates that reach the corners the property names"""
-    t = rng.randrange(12)
+    t = rng.randrange(17)
+    if t == 12 and rng.random() < 0.3:
+        # a column of nothing but None becomes a missing *dataset* descriptor; then round trip again
+        init = _df_init(rng)
+        init['obs'] = [kc for kc in init['obs'] if kc[0] != 'm'] + [['m', [None] * len(init['meas'])]]
+        init['kinds']['obs:m'] = rng.choice(['list', 'array'])
+        init['kinds']['miss:obs:m'] = 'none'
+        return init, [gen_op(rng, 'df'), gen_op(rng, rng.choice(['copy', 'sort_by', 'df'])), gen_op(rng, 'df'),
+                      gen_op(rng, 'df_default')]
+    if t == 12:     # DataFrame round trips with missing values / float descriptors, then ordinary ops
+        init = _df_init(rng)
+        ops = [gen_op(rng, rng.choice(['df', 'df', 'df_default'])),
+               gen_op(rng, rng.choice(['sort_by', 'subset_obs', 'split_obs', 'copy'])),
+               gen_op(rng, rng.choice(['df', 'df_default'])), gen_op(rng, 'df')]
+        return init, ops
+    if t == 13:     # the missing-value column travels through gathers, then to the DataFrame
+        init = _df_init(rng, rng.choice([3, 4, 5, 6]))
+        ops = [gen_op(rng, rng.choice(['sort_by', 'subset_obs', 'split_obs'])), gen_op(rng, 'pick'),
+               gen_op(rng, rng.choice(['df', 'df_default'])), gen_op(rng, 'df_default')]
+        return init, ops
+    if t == 14:     # odd/even splits with a single (level-2) group must be rejected
+        no = rng.choice([2, 3, 4])
+        init = gen_init(rng, rng.random() < 0.3, no, 2, special=False)
+        init['obs'] = [['c', [7] * no], ['r', [i % 2 for i in range(no)]]]
+        name = rng.choice(['odd_even', 'nested_odd_even'])
+        op = {'name': name, 'at': 0, 'k': 0, 'k2': 0} if name == 'odd_even' else \
+            {'name': name, 'at': 0, 'k': rng.choice([0, 1]), 'k2': 0}
+        return init, [op, gen_op(rng, 'copy')]
+    if t == 15:     # merging parts with different channel counts is refused
+        nc = rng.choice([3, 4])
+        init = gen_init(rng, None, None, nc, special=False)
+        init['chan'] = [['g', [0] * (nc - 1) + [1]]]
+        init['kinds']['chan:g'] = rng.choice(['list', 'array'])
+        return init, [{'name': 'split_channel', 'at': 0, 'k': 0}, {'name': 'merge'}, gen_op(rng, 'pick')]
+    if t == 16:     # subset_time with bounds on / between / outside the time points, then binning
+        init = gen_init(rng, True, nt=rng.choice([2, 3, 4]))
+        return init, [gen_op(rng, 'subset_time'), gen_op(rng, 'subset_time'), gen_op(rng, 'time_as_observations'),
+                      gen_op(rng, 'df_default')]
     if t == 0:      # sort + split + merge
         return gen_init(rng), [gen_op(rng, 'sort_by'), gen_op(rng, 'split_obs'), {'name': 'merge'},
                                gen_op(rng, 'sort_by')]
@@ -148,7 +282,8 @@ def _directed(rng):
                       gen_op(rng, 'sort_by'), gen_op(rng, rng.choice(['df', 'df_default']))]
     if t == 2:      # time handling chain
         init = gen_init(rng, True, nt=rng.choice([3, 4]))
-        return init, [gen_op(rng, 'subset_time'), gen_op(rng, 'bin_time'), gen_op(rng, 'time_as_observations')]
+        first = [gen_op(rng, 'subset_time')] if rng.random() < 0.5 else []
+        return init, first + [gen_op(rng, 'bin_time'), gen_op(rng, 'time_as_observations')]
     if t == 3:      # temporal sort stability: > 16 rows, few groups
         no = rng.randint(17, 24)
         init = gen_init(rng, True, no, 1, rng.choice([1, 2]))
@@ -251,10 +386,13 @@ def _exhaustive(rng):
         {'name': 'bin_time', 'k': 0, 'bins': [[0, 1], [2]]},
         {'name': 'time_as_observations', 'k': 0}, {'name': 'time_as_channels'},
         {'name': 'df', 'k': 0}, {'name': 'pick', 'at': 1}, {'name': 'average_by', 'k': 0},
-    ]   # (df_default is left to the directed / random streams: see _norm)
+        {'name': 'df_default', 'k': 0},
+    ]
     flat = {'temporal': False, 'meas': [[[11], [12]], [[21], [22]], [[31], [32]], [[41], [42]]],
-            'desc': [['sub', 1]], 'obs': [['c', ['b', 'a', 'b', 'a']], ['r', [1, 1, 0, 0]]],
-            'chan': [['n', ['x', 'y']]], 'time': [], 'kinds': {'obs:c': 'list', 'obs:r': 'array', 'chan:n': 'list'}}
+            'desc': [['sub', 1]], 'obs': [['c', ['b', 'a', 'b', 'a']], ['r', [1, 1, 0, 0]],
+                                          ['z', ['p', None, 'p', None]]],
+            'chan': [['n', ['x', 'y']]], 'time': [],
+            'kinds': {'obs:c': 'list', 'obs:r': 'array', 'chan:n': 'list', 'obs:z': 'list'}}
     temp = {'temporal': True,
             'meas': [[[111, 112, 113], [121, 122, 123]], [[211, 212, 213], [221, 222, 223]],
                      [[311, 312, 313], [321, 322, 323]]],
@@ -268,18 +406,14 @@ def _exhaustive(rng):
 
 
 def _norm(case):
-    """bin_time writes float-typed time coordinates (even for integral means); such a session
-    uses the explicit-channel round trip only"""
-    if any(o['name'] == 'bin_time' for o in case['ops']):
-        for o in case['ops']:
-            if o['name'] == 'df_default':
-                o['name'] = 'df'
+    """(round 3: nothing to normalise any more — the model tracks float-typed descriptors, so a
+    `df_default` after `bin_time` is decided by `dfDefaultRepresentable` on both sides)"""
     return case
 
 
 def generate(rng, tier):
     if tier == 'quick':
-        n_dir, n_rand, maxlen = 500, 500, 8
+        n_dir, n_rand, maxlen = 900, 600, 8
     else:
         n_dir, n_rand, maxlen = 5000, 10000, 30
         yield from _exhaustive(rng)
@@ -314,7 +448,7 @@ def model_requests(case):
 
 def _unlbl(j):
     if isinstance(j, dict):
-        return Fraction(j['q'])
+        return float(Fraction(j['f'])) if 'f' in j else Fraction(j['q'])
     return j
 
 
@@ -387,6 +521,11 @@ def _diff(a, b, path=''):
             or a is None or b is None:
         return None if type(a) is type(b) and a == b else f'{path}: {a!r} != {b!r}'
     if isinstance(a, (int, float, Fraction)) and isinstance(b, (int, float, Fraction)):
+        # labels: a float-typed number is not an integer-typed one (the dtype decides what from_df
+        # takes for a channel); measurements and means are compared by value only
+        if not any(seg in path for seg in ('.meas', '.avg', '.tensor')) and \
+                isinstance(a, float) != isinstance(b, float):
+            return f'{path}: {a!r} != {b!r} (integer- vs float-typed)'
         return None if close(float(a), float(b)) else f'{path}: {a!r} != {b!r}'
     return None if a == b else f'{path}: {a!r} != {b!r}'
 
@@ -470,8 +609,9 @@ def features(case, impl):
     br = set()
     br.add('class:temporal' if f['temporal'] else 'class:flat')
     kinds = case['init'].get('kinds', {})
-    for v in kinds.values():
-        br.add('desc:' + v)
+    for k, v in kinds.items():
+        if not k.startswith('miss:'):
+            br.add('desc:' + v)
     init = case['init']
     if impl is not None and impl['init'] == 'rejected':
         br.add('init:rejected-' + ('notime' if impl.get('exc') == 'Warning' else 'length'))
@@ -482,14 +622,23 @@ def features(case, impl):
             br.add('init:none-descriptors')
     steps = impl['steps'] if impl is not None else None
     if steps is not None:
+        cur = [impl['init']] if isinstance(impl['init'], dict) else []
         for n, s in enumerate(steps):
             op = case['ops'][n]
             out = s['out']
+            before = cur
+            if isinstance(out, dict) and 'state' in out:
+                cur = out['state']
+            _round3_branches(br, op, s, before)
             if out == 'inadmissible':
                 br.add('out:inadmissible')
                 continue
             if out == 'rejected':
-                br.add('merge:rejected-mixed')
+                if op['name'] == 'merge':
+                    br.add('merge:rejected-mixed' if len({d['temporal'] for d in before}) > 1
+                           else 'merge:rejected-shape')
+                else:
+                    br.add('oe:rejected-one-group')
                 continue
             if isinstance(out, dict) and 'exc' in out:
                 br.add('out:exception')
@@ -521,15 +670,69 @@ def features(case, impl):
                 if op['name'] == 'merge' and n > 0:
                     prev = [x for x in steps[:n] if isinstance(x['out'], dict) and 'state' in x['out']]
                     if prev:
-                        before = prev[-1]['out']['state']
+                        before_m = prev[-1]['out']['state']
                         after = out['state'][0]
-                        if any(k not in after['desc'] for b in before for k in b['desc']):
+                        if any(k not in after['desc'] for b in before_m for k in b['desc']):
                             br.add('merge:promoted')
                 if op['name'] == 'sort_by' and out['state'] and any(
                         d['temporal'] and len(d['meas']) > 16 for d in out['state']):
                     br.add('sort:temporal-large')
     f['branches'] = sorted(br)
     return f
+
+
+def _round3_branches(br, op, step, before):
+    """coverage tags of the round-3 input classes, read off the real side's canonical states"""
+    out, args = step['out'], step['args']
+    is_state = isinstance(out, dict) and 'state' in out
+    name = op['name']
+    d = before[args['at']] if isinstance(args, dict) and 'at' in args and args['at'] < len(before) else None
+    if is_state and name not in ('df', 'df_default', 'copy', 'pick') and \
+            any(None in col for x in out['state'] for col in x['obs'].values()):
+        br.add('missing:gathered')
+    if name == 'subset_time' and is_state:
+        if isinstance(args.get('lo'), float) and (op.get('lo_off') or op.get('hi_off')):
+            br.add('subset_time:open-bound')
+        if isinstance(args.get('hi'), float) and (op.get('lo_off') or op.get('hi_off')):
+            br.add('subset_time:open-bound')
+        if args.get('lo') == args.get('hi') and any(len(v) == 1 for x in out['state'] for v in x['time'].values()):
+            br.add('subset_time:single-point')
+    if name == 'bin_time' and is_state and d is not None:
+        tcol = d['time'].get(args.get('by'), [])
+        for b in args.get('bins', []):
+            pos = sorted(t for t, x in enumerate(tcol) if x in b)
+            if pos and pos[-1] - pos[0] + 1 != len(pos):
+                br.add('bin:non-adjacent')
+    if name not in ('df', 'df_default') or d is None or d['temporal'] or not d['meas'] or not d['meas'][0]:
+        return
+    if is_state and any(v is None for v in d['desc'].values()):
+        br.add('df:missing-dataset-desc')
+    cols = list(d['obs'].values())
+    names = d['chan'].get(args.get('key'), [])
+    uniq = len(set(map(repr, names))) == len(names)
+    clash = any(isinstance(x, str) and (x in d['obs'] or x in d['desc']) for x in names)
+    floaty = [c for c in cols + [[v] for v in d['desc'].values()]
+              if c and all(x is None or isinstance(x, (int, float)) for x in c)
+              and any(x is None or isinstance(x, float) for x in c)]
+    if is_state:
+        for c in cols:
+            if None in c and any(isinstance(x, str) for x in c):
+                br.add('df:missing-str')
+            if None in c and any(isinstance(x, float) for x in c):
+                br.add('df:missing-float')
+            if None in c and len({x for x in c if x is not None}) == 1:
+                br.add('df:const-except-missing')
+            if c and all(x is None for x in c):
+                br.add('df:all-missing')
+        if name == 'df' and any(any(isinstance(x, float) for x in c) for c in cols):
+            br.add('df:float-explicit')
+    elif out == 'inadmissible' and uniq:
+        if clash:
+            br.add('df:name-clash')
+        elif name == 'df_default' and floaty:
+            br.add('df:float-unrepresentable')
+            if any(all(isinstance(x, float) and x.is_integer() for x in c) for c in floaty):
+                br.add('df:integral-float')
 
 
 def nontrivial_key(case, impl):
